@@ -180,6 +180,32 @@ func VH_C01_VerifyAPREQ() {
 	}
 }
 
+// VH_C01_ReplayFromAnotherAddress: the same AP-REQ presented twice to the service, the second time arriving
+// from another client address (the SPNEGO handler passes the connection's address as ClientAddress).  Where it
+// comes from is not part of an authenticator's identity: if the first presentation was accepted, the second is
+// a replay.
+func VH_C01_ReplayFromAnotherAddress() {
+	kt := keytab.New()
+	kt.VHAddEntry(zzverif.String(1), []string{zzverif.String(1)}, zzverif.Int32(), zzverif.Uint32(), zzverif.Bytes(1), time.Unix(int64(zzverif.Int32()), 0))
+	var a messages.APReq
+	a.Ticket.Realm = zzverif.String(1)
+	a.Ticket.SName = vhName(1, 1)
+	a.Ticket.EncPart = types.EncryptedData{EType: zzverif.Int32(), KVNO: zzverif.Int(), Cipher: zzverif.Bytes(1)}
+	a.EncryptedAuthenticator = types.EncryptedData{EType: zzverif.Int32(), KVNO: zzverif.Int(), Cipher: zzverif.Bytes(1)}
+	b := a
+	d := 5 * time.Minute
+	addr1 := types.HostAddress{AddrType: zzverif.Int32(), Address: zzverif.Bytes(1)}
+	addr2 := types.HostAddress{AddrType: zzverif.Int32(), Address: zzverif.Bytes(1)}
+	ok1, _, _ := VerifyAPREQ(&a, NewSettings(kt, MaxClockSkew(d), ClientAddress(addr1)))
+	ok2, _, err2 := VerifyAPREQ(&b, NewSettings(kt, MaxClockSkew(d), ClientAddress(addr2)))
+	if ok1 {
+		zzverif.Reach("first-accepted")
+		zzverif.Assert("second-presentation-is-a-replay-wherever-it-comes-from", !ok2 && err2 != nil)
+	} else {
+		zzverif.Reach("first-rejected")
+	}
+}
+
 // ---- C02: an authenticator is accepted at most once while it remains acceptable ---------------------------
 
 func vhAuth(cname string, ct time.Time, cusec int) types.Authenticator {
